@@ -3938,6 +3938,12 @@ impl<'a> Parser<'a> {
     fn parse_primary_type_inner(&mut self) -> Result<TypeAnnotation, JsError> {
         let start = self.current.span;
 
+        // unique symbol (`unique` followed by anything but a name is a type called `unique`)
+        if self.check_keyword("unique") && self.peek_is_identifier() {
+            self.advance();
+            return self.parse_primary_type();
+        }
+
         match &self.current.kind {
             // keyof operator: keyof T
             TokenKind::Keyof => {
